@@ -701,6 +701,32 @@ class AReport:
                 run.error('obligation "%s" fails symbolically (residual %.3g at %s) but the compiled code satisfies the numeric oracle - inconclusive' % (
                     ob.name, spec['residual_symbolic'], spec['point']))
 
+    def guarded(self, prop, fn, fallback, label):
+        """runs a section; if the code under test leaves what the symbolic run can follow (converts
+        its input to a float array, calls an unmodelled library routine, ...), the numeric oracle(s)
+        `fallback` are run on the COMPILED code of the tree being checked: a failure there is a
+        concrete failing run and is reported as the violation, otherwise the run is inconclusive
+        (exit 2) - never a pass. Returns fn()'s value or None."""
+        try:
+            return fn()
+        except common.HarnessError:
+            raise
+        except (TypeError, NotImplementedError, RuntimeError, AttributeError, ValueError, KeyError, IndexError, ZeroDivisionError, ArithmeticError) as e:
+            run = self.run
+            specs = [dict(sp, property=prop, kind=sp.get('kind', 'numeric')) for sp in fallback]
+            res = common.run_replays(specs) if specs else []
+            hit = [(sp, r) for sp, r in zip(specs, res) if r.get('violated')]
+            what = '%s: %s' % (type(e).__name__, str(e)[:140])
+            if hit:
+                sp, r = hit[0]
+                sp = dict(sp)
+                sp['observed'] = r.get('detail') or r.get('failed')
+                run.violation('%s: symbolic execution left the model (%s); real code: %s' % (label, what, str(sp['observed'])[:400]), common.write_replay(prop, sp))
+            else:
+                run.error('%s: symbolic execution failed (%s) and the compiled code satisfies the numeric oracle - inconclusive' % (label, what))
+            run.family(label, 1, 0, 0.0)
+            return None
+
     def selfcheck(self, prop, specs):
         """translator validation of the formalisation: the numeric oracle (finite differences /
         independent reference on the COMPILED code) is run at seeded points on the tree being
@@ -805,7 +831,7 @@ class AReport:
             sc = scale_fn(pt) if scale_fn else 1.0
             if abs(v) > tol * sc:
                 found.append((abs(v) / sc, pt, v))
-                if len(found) >= 5:
+                if len(found) >= 40:
                     break
         if found:
             # the point where the symbolic residual is largest: solver models are often degenerate
